@@ -1,11 +1,12 @@
 """C03 — exactly-once delivery."""
 import vlib, simgen, oracles
-from props import simprops, opseq, c14
+from props import simprops, opseq, c14, chanprops
 
 HARNESS = ("simh", "atomh")
 TRUSTED = ["per-mechanism theorems (deliveries of a send, enqueue once, consume once, sender waits, counter = queued messages); the trace-level multiset equality sent = processed is decided on the implementation by the closure oracle and on the model by correspondence",
            "MessageFnOnce (FnOnce taken once) is covered behaviourally only",
            "'every connected recipient': the bench DSL connects all ports before the simulation starts; connections added later through a clone of a port (util/cached_rw_lock.rs) are covered by the CachedRw theorems (C14) and by op sequences on the verbatim cached_rw_lock.rs run here as well"]
+TRUSTED = TRUSTED + chanprops.TRUSTED
 ASSUMPTIONS = ["benches of this family do not schedule from handlers, so the oracle's accounting is exact"]
 ORACLES = (oracles.o_harness, oracles.o_exactly_once, oracles.o_time)
 
@@ -16,6 +17,7 @@ def nontrivial(c, mobs):
 
 def tie(rep, tier, rng, model_ok):
     q = tier == "quick"
+    chanprops.run(rep, tier)
     crw = c14.gen_crw(rng, 1500 if q else 30000)
     opseq.check(rep, "connection-list", crw, vlib.ATOMH, ["seq"], c14.crw_ref, lambda l: l.count("w,") >= 1 and l.count("c,") >= 1, model_ok, 1,
                 rule="connection lists of port clones: op sequences (clone / connect / send over up to 5 clones) on the verbatim cached_rw_lock.rs vs CachedRw.v")
@@ -26,4 +28,7 @@ def tie(rep, tier, rng, model_ok):
 
 
 def replay(rep, path, model_ok):
+    import json
+    if chanprops.replay(json.load(open(path))):
+        return
     simprops.replay(rep, path, model_ok)
